@@ -258,6 +258,8 @@ type Options struct {
 	LogReads   bool
 	LogIter    bool
 	Partitions func(start, end []byte) []storage.Partition
+	// TrackAbandoned: see gate.Store.TrackAbandoned
+	TrackAbandoned bool
 }
 
 // NewEnv creates a fresh backend with a fresh key prefix over the engine.
@@ -276,7 +278,7 @@ func NewEnv(o Options) *Env {
 	}
 	km.Special[prefix+"/compact_key"] = "compact"
 	km.Special[prefix+"/election"] = "election"
-	st := &gate.Store{Below: o.Engine.Below, Inner: o.Engine.KV, S: sched, Rec: rec, Keys: km, NoTTL: o.NoTTL, LogReads: o.LogReads, LogIter: o.LogIter, Partitions: o.Partitions}
+	st := &gate.Store{Below: o.Engine.Below, Inner: o.Engine.KV, S: sched, Rec: rec, Keys: km, NoTTL: o.NoTTL, LogReads: o.LogReads, LogIter: o.LogIter, Partitions: o.Partitions, TrackAbandoned: o.TrackAbandoned}
 	env := &Env{Eng: o.Engine, Store: st, Sched: sched, Rec: rec, Keys: km, Prefix: prefix, Base: o.Base}
 	current.Store(env)
 	if !o.NoBackend {
